@@ -295,6 +295,25 @@ def _precheck_loop(atom, f, first, second_iter):
     ax = atom.an.alias_expander(f) if hasattr(atom.an, "alias_expander") else None
 
     claimed_by_helper = {}      # node id -> child list expression the helper tests the name against
+    from .symtext import Expander as _Ex
+    _fx = _Ex(f, g)
+
+    def xt(test, br):
+        # a test kept in a boolean local first (`taken = a or b; if taken: raise`) is the test itself; only names bound to tests are expanded
+        from .dataflow import reaching_defs as _rd, def_value as _dv
+
+        class T(ast.NodeTransformer):
+            def visit_Name(self, nm):
+                if isinstance(nm.ctx, ast.Load):
+                    ds = list(_rd(g, br, nm.id))
+                    e2 = _dv(ds[0], nm.id) if len(ds) == 1 and ds[0].kind != "entry" else None      # one step only: the operands keep their names
+                    if isinstance(e2, (ast.BoolOp, ast.Compare, ast.UnaryOp)) or (isinstance(e2, ast.Call) and isinstance(e2.func, ast.Name) and e2.func.id == "isinstance"):
+                        return e2
+                return nm
+        import copy as _copy
+        if isinstance(test, ast.Name) or (isinstance(test, ast.UnaryOp) and isinstance(test.operand, ast.Name)):
+            return T().visit(_copy.deepcopy(test))
+        return test
 
     def add_of(n):
         """(collection local) when node n is `S.append(y.name)` / `S.add(y.name)`, or a call of a claim helper (see
@@ -397,8 +416,9 @@ def _precheck_loop(atom, f, first, second_iter):
                 c_ok = isinstance(r, ast.Attribute) and isinstance(r.value, ast.Name) and r.value.id == me and r.attr in lists
                 if c_ok and known(g, n, classify, lambda a: a["K"], ["K"], start=hd):
                     found = kind
-            elif known(g, n, classify, lambda a: a["K"], ["K"], start=hd) and known(g, n, classify, lambda a: not a["C"], ["C"], start=hd) \
-                    and known(g, n, classify, lambda a: not a["S"], ["S"], start=hd):
+            elif known(g, n, classify, lambda a: a["K"], ["K"], start=hd, expand_test=xt) \
+                    and known(g, n, classify, lambda a: not a["C"], ["C"], start=hd, expand_test=xt) \
+                    and known(g, n, classify, lambda a: not a["S"], ["S"], start=hd, expand_test=xt):
                 found = kind
         if found is None or kinds.get(coll, found) != found or (found in kinds.values() and coll not in kinds):
             return set()
